@@ -78,6 +78,11 @@ func (ch *Channel) Invoke(ctx context.Context, methodName string, req, resp inte
 	reply, err := ch.Transport.RoundTrip(r.WithContext(ctx))
 	verifAt("http.unary.after-roundtrip", ctx)
 	if err != nil {
+		if ctxErr := ctx.Err(); ctxErr != nil {
+			// the transport may report the context's cause (context.WithCancelCause
+			// and friends) instead of the context error itself
+			err = ctxErr
+		}
 		return statusFromContextError(err)
 	}
 
@@ -498,6 +503,11 @@ func (cs *clientStream) doHttpCall(transport http.RoundTripper, req *http.Reques
 	verifAt("http.stream.after-roundtrip", cs.ctx)
 	if err != nil {
 		reply = nil
+		if ctxErr := cs.ctx.Err(); ctxErr != nil {
+			// the transport may report the context's cause instead of the
+			// context error itself
+			err = ctxErr
+		}
 		onReady(statusFromContextError(err), nil)
 		return
 	}
